@@ -59,7 +59,9 @@ class C18(Prop):
                 elif r < 0.92:
                     ops.append(["reset"])
                 elif r < 0.95:
+                    # a clear, and what it must leave behind: estimate 0 for every key (asked before anything is recorded)
                     ops.append(["clear"])
+                    ops += [["est", k2] for k2 in rng.sample(keys, min(len(keys), 3))]
                 else:
                     ops.append(["dump"])
             ops.append(["dump"])
@@ -103,6 +105,7 @@ class C18(Prop):
         elif case.comp in ("sketch", "tlfu"):
             counts = {}
             since_reset = 0
+            fresh = True          # nothing recorded since construction / the last clear
             reset_at = int(case.args[0]) if case.comp == "tlfu" else None
             for op, l in zip(case.ops, il):
                 fs = op.split()
@@ -120,9 +123,14 @@ class C18(Prop):
                     if reset_at is not None and since_reset >= reset_at:
                         counts = {}
                         since_reset = 0
+                if ks:
+                    fresh = False
                 if fs[0] in ("reset", "clear"):
                     counts = {}
                     since_reset = 0
+                    fresh = fresh or fs[0] == "clear"
+                if fs[0] == "est" and fresh and int(l) != 0:
+                    fails.append("estimate(%s)=%s right after a clear (nothing recorded since): a clear zeroes everything" % (fs[1], l.strip()))
                 if fs[0] == "est":
                     v = int(l)
                     nacc = counts.get(fs[1], 0)
